@@ -145,6 +145,33 @@ try:
                 except Exception: return False
             if acc(p) != acc(q):
                 note('template-capture', {'grammar': g, 'lib': open(os.path.join(d, 'tl.lark')).read(), 'parser': parser}, acc(p), acc(q))
+    # nested imports: a module reached along two paths (directly and through another module / diamond): transitive dependencies keep the
+    # prefixes of the whole import chain, so they neither clash nor capture
+    open(os.path.join(d, 'numbers.lark'), 'w').write('num: sign DIGIT\nsign: "+" | "-"\nDIGIT: "0".."9"\n')
+    open(os.path.join(d, 'bmod.lark'), 'w').write('%import numbers.num\nexpr: num "!"\n')
+    open(os.path.join(d, 'dmod.lark'), 'w').write('%import numbers.num\nterm: num "?"\n')
+    NEST = [('start: expr | "#" num\n%import bmod.expr\n%import numbers.num\n', 'start: expr | "#" num\nexpr: num2 "!"\nnum2: sign2 DIGIT\nsign2: "+" | "-"\nnum: sign DIGIT\nsign: "+" | "-"\nDIGIT: "0".."9"\n', ['+1!', '#-2', '-2', '1']),
+            ('start: expr | "#" term\n%import bmod.expr\n%import dmod.term\n', 'start: expr | "#" term\nexpr: num "!"\nterm: num2 "?"\nnum: sign DIGIT\nnum2: sign DIGIT\nsign: "+" | "-"\nDIGIT: "0".."9"\n', ['+1!', '#-2?', '+3']),
+            ('start: expr\n%import bmod.expr\n', 'start: expr\nexpr: num "!"\nnum: sign DIGIT\nsign: "+" | "-"\nDIGIT: "0".."9"\n', ['+1!', '1!'])]
+    for g, hand, inputs in NEST:
+        evals += 1; distinct += 1
+        for parser in ('lalr', 'earley'):
+            def _acc(P):
+                out = []
+                for t in inputs:
+                    try: P.parse(t); out.append('ok')
+                    except Exception as e: out.append('rejected')
+                return out
+            try:
+                p = Lark(g, import_paths=[d], parser=parser)
+            except Exception as e:
+                note('nested-import', {'grammar': g, 'modules': {n: open(os.path.join(d, n)).read() for n in ('numbers.lark', 'bmod.lark', 'dmod.lark')}}, 'construction raised %s: %s' % (type(e).__name__, str(e)[:140]), 'loads like the hand-written grammar'); continue
+            try:
+                q = Lark(hand, parser=parser)
+            except Exception as e:
+                note('nested-import-oracle', {'hand': hand, 'parser': parser}, 'hand-written grammar does not load: %s' % str(e)[:100], 'loads'); continue
+            if _acc(p) != _acc(q):
+                note('nested-import', {'grammar': g, 'parser': parser}, _acc(p), _acc(q))
 finally:
     shutil.rmtree(d, ignore_errors=True)
 res = {'fails': bool(fails), 'evaluations': evals, 'distinct': distinct, 'failures': fails}
